@@ -111,6 +111,25 @@ pub fn gen_output_ops(rng: &mut Prng, kind: Kind, max_ops: u64) -> Vec<Op> {
         .collect()
 }
 
+/// Long-haul length: one fill_bytes that draws more than 2^16 32-bit words (more than 4096 HC-128
+/// blocks, 256 ISAAC blocks) from a single instance, so that counters which only wrap after many
+/// refills are driven past their limit.
+pub fn long_haul_len(rng: &mut Prng) -> u32 {
+    (4 * 65_536 + rng.below(8_192)) as u32
+}
+
+/// with probability 1/`one_in`, insert one long-haul fill at a random position
+pub fn maybe_long_haul(rng: &mut Prng, ops: &mut Vec<Op>, one_in: u64) -> bool {
+    if rng.chance(1, one_in) {
+        let at = rng.below(ops.len() as u64 + 1) as usize;
+        let n = long_haul_len(rng);
+        ops.insert(at, Op::Fill(n));
+        true
+    } else {
+        false
+    }
+}
+
 pub fn pre_range(kind: Kind) -> u64 {
     if kind.buffered() {
         kind.block_words() as u64 + 2
